@@ -1,4 +1,6 @@
 import GrinVerif.Lemmas.ConsNode
+import GrinVerif.Model.ConsNet
+import GrinVerif.Props.C05
 /-! # C04 — only headers obeying height, time, version, difficulty and PoW rules pass
 
 Property theorems about the model `GV.Cons` (`Model/Cons.lean`) of `consensus.rs`,
@@ -1288,4 +1290,216 @@ theorem validate_header_no_panic_on_chain (c : Ctx) (h a b : Hdr) (rest : List H
     (hr : a.ts < 2^63) : validateHeader c h ≠ .error .Panic := by
   obtain ⟨last, prev, w, he, hle, hrr⟩ := window_of_chain_ok a b rest h0 hlt hr
   exact validate_header_no_panic c h last prev w (by rw [hw, he]) hle hrr
+
+/-! ## the network side: the proof of work is verified on the graph size the header CLAIMS, and
+every entry path of a header applies the same network-side rules
+
+`Model/ConsNet.lean`: `verifySizeHdr` is `pow::verify_size` with the verifier of property C05
+computed (no longer an input Boolean); its context — variant, edge mask, node mask, siphash keys — is
+built from the header's own fields, `edge_bits` included, for every chain type.  `edge_bits` is not
+part of the pre-PoW bytes, so a cycle solved on a small graph can be relabelled to a larger size
+without changing the seed; `to_difficulty` / `graph_weight` would credit the claimed size.  What
+keeps such a header out is that the cycle must verify on the graph of the CLAIMED size.
+`netHeaderOk` is the one function behind `UntrustedBlockHeader::read`; `netRead` is what the four
+network readers (bare header, item of a header list, compact block, full block) do with it. -/
+
+/-- `verifySizeHdr` accepts only what `pow::verify_size`'s model accepts -/
+theorem verifySizeHdr_ok (ct : ChainType) (n : NetHdr) (h : verifySizeHdr ct n = .ok ()) :
+    Pow.verifySize (powCt ct) n.h.height n.h.edgeBits n.prePow n.nonces = .ok () := by
+  unfold verifySizeHdr at h
+  cases hv : Pow.verifySize (powCt ct) n.h.height n.h.edgeBits n.prePow n.nonces with
+  | ok u => cases u; rfl
+  | error e =>
+    rw [hv] at h
+    dsimp only at h
+    split at h
+    · split at h <;> cases h
+    · cases h
+
+/-- **The proof of work is verified on the claimed graph size.**  `verify_size` accepts a header only
+if a context exists for (chain type, height, CLAIMED edge bits) and that variant's `verify` accepts
+the nonces under parameters that are functions of the header alone: edge mask `2^edge_bits - 1`,
+endpoints masked to the node bits of `edge_bits`, keys = blake2b of the header's pre-PoW bytes. -/
+theorem verify_size_on_claimed_size (ct : ChainType) (n : NetHdr) (h : verifySizeHdr ct n = .ok ()) :
+    ∃ v, Pow.selectVariant (powCt ct) n.h.height n.h.edgeBits = some v ∧
+      Pow.verifyOf v (Pow.mkParams n.h.edgeBits (Pow.proofsizeOf (powCt ct)) n.nonces.length)
+        (Pow.epOf v (Pow.keysOfHeader n.prePow none) n.h.edgeBits) n.nonces = .ok () :=
+  (GV.Props.C05.verifySize_ok_iff _ _ _ _ _).mp (verifySizeHdr_ok ct n h)
+
+/-- the testing chain types always take the Cuckatoo branch of `create_pow_context`, at the
+requested size -/
+theorem testing_chain_cuckatoo (ct : ChainType) (hct : ct = .automatedTesting ∨ ct = .userTesting)
+    (height eb : Nat) : Pow.selectVariant (powCt ct) height eb = some .cuckatoo := by
+  rcases hct with rfl | rfl <;> rfl
+
+/-- **Testing chain types** (AutomatedTesting / UserTesting — the non-production branch of
+`create_pow_context`): an accepted header carries exactly `proofsize` strictly ascending nonces, all
+BELOW `2^edge_bits` for the edge bits it claims, forming one simple cycle through all of them in the
+Cuckatoo graph of the CLAIMED size seeded by its pre-PoW bytes. -/
+theorem verify_size_testing_chain (ct : ChainType) (hct : ct = .automatedTesting ∨ ct = .userTesting)
+    (n : NetHdr) (h : verifySizeHdr ct n = .ok ()) :
+    n.nonces.length = Pow.proofsizeOf (powCt ct) ∧ Pow.Ascending n.nonces ∧
+    (∀ x ∈ n.nonces, x < 2 ^ n.h.edgeBits) ∧
+    Pow.IsProofCycleCuckatoo
+      (n.nonces.map (Pow.epCuckatoo (Pow.keysOfHeader n.prePow none) n.h.edgeBits)) := by
+  obtain ⟨v, hv, hok⟩ := verify_size_on_claimed_size ct n h
+  rw [testing_chain_cuckatoo ct hct] at hv
+  cases hv
+  obtain ⟨h1, h2, h3, h4⟩ := GV.Props.C05.verifyCuckatoo_sound _ _ _ hok
+  refine ⟨h1, h2, ?_, h4⟩
+  intro x hx
+  have := h3 x hx
+  have hp : 0 < 2 ^ n.h.edgeBits := Nat.pow_pos (by omega)
+  simp only [Pow.mkParams] at this
+  omega
+
+/-- **Every chain type**: every nonce of an accepted header lies below `2^edge_bits` for the edge
+bits the header claims (each of the five verifiers compares with the context's edge mask, and the
+context's edge mask is `2^edge_bits - 1` of the claimed size). -/
+theorem verify_size_nonces_in_claimed_range (ct : ChainType) (n : NetHdr)
+    (h : verifySizeHdr ct n = .ok ()) : ∀ x ∈ n.nonces, x < 2 ^ n.h.edgeBits := by
+  obtain ⟨v, _, hok⟩ := verify_size_on_claimed_size ct n h
+  have hlen := GV.Props.C05.verifySize_ok_length _ _ _ _ _ (verifySizeHdr_ok ct n h)
+  have hps : 0 < Pow.proofsizeOf (powCt ct) := by cases ct <;> decide
+  have hp : 0 < 2 ^ n.h.edgeBits := Nat.pow_pos (by omega)
+  have key : ∀ x ∈ n.nonces,
+      x ≤ (Pow.mkParams n.h.edgeBits (Pow.proofsizeOf (powCt ct)) n.nonces.length).edgeMask := by
+    cases v with
+    | cuckatoo => exact (GV.Props.C05.verifyCuckatoo_sound _ _ _ hok).2.2.1
+    | cuckaroo => exact (GV.Props.C05.verifyCuckaroo_sound _ _ _ hok).2.2.1
+    | cuckarood =>
+      refine (GV.Props.C05.verifyCuckarood_sound _ _ _ ?_ hok).2.2.1
+      intro x
+      exact GV.Props.C05.bucketMask_low_bit _ hps x
+    | cuckaroom => exact (GV.Props.C05.verifyCuckaroom_sound _ _ _ hok).2.2.1
+    | cuckarooz =>
+      refine (GV.Props.C05.verifyCuckarooz_sound _ _ _ ?_ hok).2.2.1
+      simp [Pow.mkParams, hlen]
+  intro x hx
+  have := key x hx
+  simp only [Pow.mkParams] at this
+  omega
+
+/-- hence a relabelled header one of whose nonces does not fit the claimed size is refused -/
+theorem relabelled_nonce_out_of_range_refused (ct : ChainType) (n : NetHdr)
+    (hx : ∃ x ∈ n.nonces, 2 ^ n.h.edgeBits ≤ x) : verifySizeHdr ct n ≠ .ok () := by
+  intro h
+  obtain ⟨x, hx, hge⟩ := hx
+  have := verify_size_nonces_in_claimed_range ct n h x hx
+  omega
+
+/-- the verdict is a function of the header's fields: two headers that agree on height, claimed
+edge bits, pre-PoW bytes and nonces get the same answer (no hidden state in the context) -/
+theorem verify_size_function_of_header (ct : ChainType) (n m : NetHdr)
+    (h1 : n.h.height = m.h.height) (h2 : n.h.edgeBits = m.h.edgeBits) (h3 : n.prePow = m.prePow)
+    (h4 : n.nonces = m.nonces) : verifySizeHdr ct n = verifySizeHdr ct m := by
+  unfold verifySizeHdr
+  rw [h1, h2, h3, h4]
+
+/-- the network-side header rules, stated outright: what `UntrustedBlockHeader::read` lets through
+is not beyond the future-time limit, carries the scheduled version and allowed edge bits, has a
+proof of work that verifies on the graph of its claimed size, and fits the global weight bound -/
+theorem net_header_rules (ct : ChainType) (now : Int) (ftl : Nat) (n : NetHdr)
+    (h : netHeaderOk ct now ftl n = .ok ()) :
+    n.h.ts ≤ now + ftl ∧ n.h.version = headerVersion ct n.h.height ∧
+    (isPrimary ct n.h.edgeBits = true ∨ isSecondary n.h.edgeBits = true) ∧
+    verifySizeHdr ct n = .ok () ∧
+    weightByIok 0 (Pmmr.nLeaves n.h.outputMmrSize) (Pmmr.nLeaves n.h.kernelMmrSize) ≤
+      mulW (maxBlockWeight ct) (addW n.h.height 1) := by
+  obtain ⟨a, b, c, d, e⟩ := untrusted_header_sound ct now ftl (n.powOk ct) n.h h
+  refine ⟨a, b, c, ?_, e⟩
+  unfold NetHdr.powOk at d
+  split at d
+  · assumption
+  · cases d
+
+/-- **Path independence**: the four readers are the same function of the header -/
+theorem net_read_path_independent (p q : NetPath) (ct : ChainType) (now : Int) (ftl : Nat)
+    (n : NetHdr) (rest : Except ReadErr Unit) :
+    netRead p ct now ftl n rest = netRead q ct now ftl n rest := rfl
+
+/-- whatever the path, what a reader lets through passed the one rule set `netHeaderOk` -/
+theorem net_read_sound (p : NetPath) (ct : ChainType) (now : Int) (ftl : Nat) (n : NetHdr)
+    (rest : Except ReadErr Unit) (h : netRead p ct now ftl n rest = .ok ()) :
+    netHeaderOk ct now ftl n = .ok () ∧ rest = .ok () := by
+  unfold netRead at h
+  split at h
+  · cases h
+  · rename_i hh
+    exact ⟨hh, h⟩
+
+/-- **A header beyond the future-time limit is refused on every path** — bare header, item of a
+header list, compact block, full block — whatever else it (or its body) says. -/
+theorem net_future_refused_every_path (p : NetPath) (ct : ChainType) (now : Int) (ftl : Nat)
+    (n : NetHdr) (rest : Except ReadErr Unit) (hf : now + ftl < n.h.ts) :
+    netRead p ct now ftl n rest = .error .CorruptedData := by
+  unfold netRead netHeaderOk
+  rw [untrusted_header_future_rejected ct now ftl _ n.h hf]
+
+/-- a header whose proof of work does not verify on its claimed size is refused on every path -/
+theorem net_bad_pow_refused_every_path (p : NetPath) (ct : ChainType) (now : Int) (ftl : Nat)
+    (n : NetHdr) (rest : Except ReadErr Unit) (hb : verifySizeHdr ct n ≠ .ok ()) :
+    netRead p ct now ftl n rest ≠ .ok () := by
+  intro h
+  exact hb (net_header_rules ct now ftl n (net_read_sound p ct now ftl n rest h).1).2.2.2.1
+
+/-- a `Headers` message is handed over only if every one of its headers passed the rule set -/
+theorem net_headers_msg_sound (ct : ChainType) (now : Int) (ftl : Nat) (l : List NetHdr)
+    (h : readHeadersMsg ct now ftl l = .ok ()) : ∀ n ∈ l, netHeaderOk ct now ftl n = .ok () := by
+  induction l with
+  | nil => intro n hn; cases hn
+  | cons a t ih =>
+    unfold readHeadersMsg at h
+    split at h
+    · cases h
+    · rename_i ha
+      intro n hn
+      rcases List.mem_cons.mp hn with rfl | hn
+      · exact (net_read_sound _ ct now ftl _ _ ha).1
+      · exact ih h n hn
+
+/-- … so one future-dated header anywhere in the list refuses the message -/
+theorem net_headers_msg_future_refused (ct : ChainType) (now : Int) (ftl : Nat) (l : List NetHdr)
+    (hf : ∃ n ∈ l, now + ftl < n.h.ts) : readHeadersMsg ct now ftl l ≠ .ok () := by
+  intro h
+  obtain ⟨n, hn, hts⟩ := hf
+  have := (net_header_rules ct now ftl n (net_headers_msg_sound ct now ftl l h n hn)).1
+  omega
+
+/-- the chain pipeline with the verifier the node installs (`pow::verify_size`): a header that
+passes `validate_header` without `SKIP_POW` has a proof of work on its claimed graph size -/
+theorem pipeline_pow_on_claimed_size (ct : ChainType) (prev : Option Hdr) (w : List HDI) (n : NetHdr)
+    (h : validateHeader (ctxForNet ct false prev w n) n.h = .ok ()) :
+    verifySizeHdr ct n = .ok () := by
+  obtain ⟨_, p, _, _, _, _, _, _, _, hd⟩ := (validate_header_iff _ _).mp h
+  have hp : (ctxForNet ct false prev w n).powOk = true := (hd rfl).2.1
+  simp only [ctxForNet, NetHdr.powOk] at hp
+  split at hp
+  · assumption
+  · cases hp
+
+/-! ### non-vacuity: a header genuinely mined on 2^10 edges (AutomatedTesting, height 0; pre-PoW
+bytes and nonces as observed on the real `pow_size`), honest and relabelled -/
+
+def exNetPre : Bytes := [0, 1, 0, 0, 0, 0, 0, 0, 0, 0, 0, 0, 0, 0, 0, 0, 0, 0, 5, 156, 63, 119, 183, 153, 125, 96, 95, 182, 153, 68, 48, 49, 222, 211, 30, 128, 111, 33, 254, 209, 143, 20, 206, 89, 22, 34, 96, 80, 31, 110, 199, 117, 92, 148, 109, 21, 143, 117, 166, 188, 141, 81, 173, 55, 17, 247, 246, 104, 172, 95, 173, 55, 15, 160, 22, 241, 102, 176, 138, 237, 116, 81, 219, 249, 212, 232, 101, 106, 173, 154, 203, 79, 212, 151, 3, 141, 49, 177, 39, 44, 112, 245, 136, 161, 218, 62, 137, 234, 216, 249, 156, 155, 84, 109, 0, 0, 0, 0, 0, 0, 0, 0, 0, 0, 0, 0, 0, 0, 0, 0, 0, 0, 0, 0, 0, 0, 0, 0, 0, 0, 0, 0, 0, 0, 0, 0, 164, 43, 73, 128, 31, 234, 176, 65, 59, 185, 80, 137, 47, 18, 36, 23, 254, 75, 200, 195, 209, 154, 138, 75, 31, 5, 235, 77, 30, 104, 76, 167, 0, 0, 0, 0, 0, 0, 0, 0, 0, 0, 0, 0, 0, 0, 0, 0, 0, 0, 0, 0, 0, 0, 0, 0, 0, 0, 0, 0, 0, 0, 0, 0, 0, 0, 0, 0, 0, 4, 217, 56, 0, 0, 0, 0, 0, 8, 213, 104, 0, 8, 83, 13, 68, 200, 14, 188, 83, 245, 21, 65, 35, 1, 10, 200, 34, 26, 128, 183]
+
+/-- the header as mined (`edge_bits` 10) and the same proof under a claimed size `eb` -/
+def exNet (eb : Nat) : NetHdr :=
+  { h := { height := 0, ts := 1000, version := 1, totalDiff := 2, secondaryScaling := 0, edgeBits := eb,
+           hash64 := 1, outputMmrSize := 1, kernelMmrSize := 1 },
+    prePow := exNetPre, nonces := [30, 397, 435, 521, 683, 836, 1018, 1023] }
+
+example : verifySizeHdr .automatedTesting (exNet 10) = .ok () := by decide +kernel
+example : verifySizeHdr .automatedTesting (exNet 11) = .error (.size (.verify .noMatch)) := by decide +kernel
+example : verifySizeHdr .automatedTesting (exNet 21) = .error (.size (.verify .noMatch)) := by decide +kernel
+example : verifySizeHdr .automatedTesting (exNet 9) = .error (.size (.verify .tooBig)) := by decide +kernel
+example : verifySizeHdr .automatedTesting (exNet 63) = .error .graphTooBig := by decide +kernel
+example : netHeaderOk .automatedTesting 2000 0 (exNet 10) = .ok () := by decide +kernel
+example : netHeaderOk .automatedTesting 2000 0 (exNet 21) = .error .CorruptedData := by decide +kernel
+example : ∀ p ∈ [NetPath.header, .headersItem, .compactBlock, .block],
+    netRead p .automatedTesting 999 0 (exNet 10) (.ok ()) = .error .CorruptedData ∧
+    netRead p .automatedTesting 1000 0 (exNet 10) (.ok ()) = .ok () := by decide +kernel
+example : readHeadersMsg .automatedTesting 2000 0 [exNet 10, exNet 10] = .ok () ∧
+    readHeadersMsg .automatedTesting 2000 0 [exNet 10, exNet 21, exNet 10] = .error .CorruptedData := by
+  decide +kernel
 end GV.Props.C04
